@@ -320,7 +320,7 @@ func biasedAst(rng *rand.Rand, cfg gen.Config) *gen.Node {
 	cfg.MaxDepth = 1 + rng.Intn(2)
 	tail := gen.Random(rng, cfg)
 	var head *gen.Node
-	switch rng.Intn(9) {
+	switch rng.Intn(11) {
 	case 0: // leading string
 		head = lit(w())
 	case 1: // leading strings
@@ -337,6 +337,36 @@ func biasedAst(rng *rand.Rand, cfg gen.Config) *gen.Node {
 		head = &gen.Node{Kind: gen.KSeq, Subs: []*gen.Node{{Kind: gen.KDot}, {Kind: gen.KDot}, {Kind: gen.KLit, Ch: 'a'}}}
 	case 7: // leading loop for bump-along
 		head = &gen.Node{Kind: gen.KSeq, Subs: []*gen.Node{{Kind: gen.KQuant, Lo: rng.Intn(2), Hi: -1, Lazy: rng.Intn(3) == 0, Subs: []*gen.Node{{Kind: gen.KShort, Short: "wsd"[rng.Intn(3)]}}}, lit(w())}}
+	case 8: // landmark chain: a leading set loop, then literals / bounded set runs / alternations of those, optional whitespace between
+		cls := func() *gen.Node {
+			sets := [][]gen.ClassItem{{{Lo: 'a', Hi: 'c'}}, {{Lo: 'b', Hi: 'b'}, {Lo: 'x', Hi: 'x'}}, {{Short: 'd'}}, {{Lo: 'b', Hi: 'c'}}}
+			return &gen.Node{Kind: gen.KClass, Class: &gen.Class{Items: sets[rng.Intn(len(sets))]}}
+		}
+		item := func() *gen.Node {
+			switch rng.Intn(4) {
+			case 0:
+				return lit(w())
+			case 1:
+				lo := 1 + rng.Intn(2)
+				return &gen.Node{Kind: gen.KQuant, Lo: lo, Hi: lo + rng.Intn(3), Lazy: rng.Intn(3) == 0, Subs: []*gen.Node{cls()}}
+			case 2:
+				return &gen.Node{Kind: gen.KGroup, Subs: []*gen.Node{{Kind: gen.KAlt, Subs: []*gen.Node{lit(w()), cls(), lit(w()[:1])}}}}
+			default:
+				return cls()
+			}
+		}
+		loopSets := []byte{'s', 'w', 'd'}
+		parts := []*gen.Node{{Kind: gen.KQuant, Lo: rng.Intn(2), Hi: -1, Subs: []*gen.Node{{Kind: gen.KShort, Short: loopSets[rng.Intn(3)]}}}}
+		if rng.Intn(3) == 0 {
+			parts[0].Subs[0] = &gen.Node{Kind: gen.KDot}
+		}
+		for k := 2 + rng.Intn(2); k > 0; k-- {
+			parts = append(parts, item())
+			if rng.Intn(3) == 0 {
+				parts = append(parts, &gen.Node{Kind: gen.KQuant, Lo: rng.Intn(2), Hi: -1, Subs: []*gen.Node{{Kind: gen.KShort, Short: 's'}}})
+			}
+		}
+		head = &gen.Node{Kind: gen.KSeq, Subs: parts}
 	default: // positive lookahead in front
 		head = &gen.Node{Kind: gen.KLook, Subs: []*gen.Node{lit(w())}}
 	}
